@@ -119,6 +119,7 @@ macro_rules! tree_api {
                     "rcap" => $ro::<$K, $V>::from_bytes(bytes).capacity().to_string(),
                     "rfull" => $ro::<$K, $V>::from_bytes(bytes).is_full().to_string(),
                     "rempty" => $ro::<$K, $V>::from_bytes(bytes).is_empty().to_string(),
+                    "dlen" => $mut::<$K, $V>::data_len(op.args[0] as usize).to_string(),
                     "fill" => {
                         // probe on a private copy: insert fresh keys until refused
                         let mut copy = ABuf::new(bytes, 1, 0x77);
@@ -320,7 +321,7 @@ impl<A: TreeApi> TreeSut<A> {
         let name = it.next()?;
         const NAMES: &[&str] = &[
             "init", "open", "ins", "rem", "get", "has", "upd", "gmq", "low", "len", "cap", "full", "empty", "rget", "rhas", "rlow", "rlen", "rcap",
-            "rfull", "rempty", "fill", "ext",
+            "rfull", "rempty", "fill", "ext", "dlen",
         ];
         let n = NAMES.iter().find(|n| **n == name)?;
         let args: Vec<i128> = it.filter_map(|a| a.parse().ok()).collect();
@@ -373,6 +374,7 @@ impl<A: TreeApi> Sut for TreeSut<A> {
         for n in ["low", "len", "cap", "full", "empty"] {
             v.push(Op::new(n, &[]));
         }
+        v.push(Op::new("dlen", &[(d.size + d.cap) as i128]));
         if self.fill {
             v.push(Op::new("fill", &[self.fresh_base, (d.cap + 2) as i128]));
         }
@@ -571,6 +573,16 @@ impl<A: TreeApi> Sut for TreeSut<A> {
             }
             "init" => {
                 exp.clear();
+                None
+            }
+            "dlen" => {
+                // data_len(c) is exactly header plus c records (record size from two independent facts:
+                // the buffer this state lives in and its record count)
+                let rec = if dq.slots > 0 { (post.len() - A::HDR) / dq.slots } else { self.rec_size() };
+                let want = (A::HDR + op.args[0] as usize * rec).to_string();
+                if want != out.result {
+                    f.push(Finding { property: "C10", what: format!("data_len({}) is {} but header + records is {}", op.args[0], out.result, want) });
+                }
                 None
             }
             _ => None,
